@@ -25,6 +25,9 @@ import (
 	"sort"
 	"strconv"
 	"strings"
+	"sync"
+	"sync/atomic"
+	"time"
 
 	"github.com/buildbuildio/pebbles/queryer"
 	"github.com/buildbuildio/pebbles/requests"
@@ -55,8 +58,24 @@ type c19Case struct {
 	Ops   string     `json:"operations"`
 	Map   string     `json:"map"`
 	Files []mpFile   `json:"files"`
-	Steps [][]string `json:"steps"` // per step: the variables it uses; null = all
-	Safe  bool       `json:"safe"`  // drawn from the region the partial theorems cover
+	Steps [][]string `json:"steps"`         // per step: the variables it uses; null = all
+	Safe  bool       `json:"safe"`          // drawn from the region the partial theorems cover
+	Big   int        `json:"big,omitempty"` // >0: the first file's bytes are generated at run time (this many), not stored in the case
+}
+
+// withBig materialises the run-time bytes of a large-file case.
+func (cs c19Case) withBig() c19Case {
+	if cs.Big <= 0 || len(cs.Files) == 0 {
+		return cs
+	}
+	out := cs
+	out.Files = append([]mpFile(nil), cs.Files...)
+	data := make([]byte, cs.Big)
+	for i := range data {
+		data[i] = byte(i*131 + i>>8)
+	}
+	out.Files[0].Data = data
+	return out
 }
 
 // ---- what the downstream received
@@ -70,9 +89,9 @@ type c19Call struct {
 	Multipart  bool
 	Query      string
 	OpName     interface{}
-	Variables  interface{}            // decoded JSON (UseNumber)
-	Map        map[string][]string    // multipart
-	Parts      map[string]c19Part     // multipart, by form key
+	Variables  interface{}              // decoded JSON (UseNumber)
+	Map        map[string][]string      // multipart
+	Parts      map[string]c19Part       // multipart, by form key
 	Batch      []map[string]interface{} // json call: the operations
 	BadRequest string
 }
@@ -214,10 +233,10 @@ type c19Client struct {
 }
 
 type c19Want struct {
-	Key  string   // file key
-	Pos  string   // position without the batch index, numeric parts normalised
-	Top  string   // top-level variable
-	Deep bool     // below the top level
+	Key  string // file key
+	Pos  string // position without the batch index, numeric parts normalised
+	Top  string // top-level variable
+	Deep bool   // below the top level
 }
 
 func normPos(parts []string) string {
@@ -480,10 +499,10 @@ func c19Oracle(cs c19Case, obs c19Obs) []c19Problem {
 // ---- canonical forms for the model comparison
 
 type c19CanonCall struct {
-	Kind  string        `json:"kind"`
-	Req   int           `json:"req"`
-	Vars  interface{}   `json:"vars"`
-	Parts []string      `json:"parts,omitempty"` // "position <- file name"
+	Kind  string         `json:"kind"`
+	Req   int            `json:"req"`
+	Vars  interface{}    `json:"vars"`
+	Parts []string       `json:"parts,omitempty"` // "position <- file name"
 	Fresh map[string]int `json:"fresh,omitempty"` // file name → parts carrying the bytes (non-empty files only)
 }
 
@@ -586,8 +605,14 @@ func c19CanonModel(step interface{}, entries []string, files map[string]formFile
 var c19KnownRecorded = map[string]int{}
 
 func c19Check(ctx *Ctx, idx int, cs c19Case) {
-	rep := ctx.Rep
+	report := cs // what a failure records (without run-time bytes)
+	cs = cs.withBig()
 	obs, hc := c19Run(cs)
+	c19Judge(ctx, idx, cs, report, obs, hc)
+}
+
+func c19Judge(ctx *Ctx, idx int, cs, report c19Case, obs c19Obs, hc httpCase) {
+	rep := ctx.Rep
 	cl := c19ClientView(cs)
 	injected := 0
 	for _, w := range cl.Want {
@@ -598,6 +623,9 @@ func c19Check(ctx *Ctx, idx int, cs c19Case) {
 		sizes += fmt.Sprintf("%s:%d,", f.Key, len(f.Data))
 	}
 	rep.Case(cs.Ops+"\x00"+cs.Map+"\x00"+sizes+fmt.Sprint(cs.Steps), obs.Parse.Kind == "ok" && injected > 0)
+	if cs.Big > 0 {
+		rep.Count(fmt.Sprintf("large file: %d bytes", cs.Big))
+	}
 	rep.Count("profile:" + map[bool]string{true: "safe", false: "wild"}[cs.Safe])
 	rep.Count("parse:" + obs.Parse.Kind)
 	rep.Count(fmt.Sprintf("steps:%d", len(cs.Steps)))
@@ -643,7 +671,7 @@ func c19Check(ctx *Ctx, idx int, cs c19Case) {
 				continue
 			}
 		}
-		rep.Fail(hx.Failure{Kind: "property-fails", Class: p.Class, Detail: p.Detail, Case: cs, Index: idx})
+		rep.Fail(hx.Failure{Kind: "property-fails", Class: p.Class, Detail: p.Detail, Case: report, Index: idx})
 	}
 	// ---- implementation vs model
 	if ctx.Driver == nil {
@@ -663,7 +691,7 @@ func c19Check(ctx *Ctx, idx int, cs c19Case) {
 	req["steps"] = steps
 	res, err := ctx.Driver.Call(req)
 	if err != nil {
-		rep.Fail(hx.Failure{Kind: "harness-error", Detail: err.Error(), Case: cs, Index: idx})
+		rep.Fail(hx.Failure{Kind: "harness-error", Detail: err.Error(), Case: report, Index: idx})
 		return
 	}
 	rep.Traces++
@@ -672,7 +700,7 @@ func c19Check(ctx *Ctx, idx int, cs c19Case) {
 		// with several failing map entries the error/panic kind may depend on Go's map order; C07
 		// compares over all orders — here only ok-vs-not-ok is compared
 		if mk == "ok" || obs.Parse.Kind == "ok" {
-			rep.Fail(hx.Failure{Kind: "model-mismatch", Detail: "requests.Parse " + obs.Parse.Kind + " " + obs.Parse.Class + ", Model.Parse.parse " + mk, Case: cs, Model: res, Index: idx})
+			rep.Fail(hx.Failure{Kind: "model-mismatch", Detail: "requests.Parse " + obs.Parse.Kind + " " + obs.Parse.Class + ", Model.Parse.parse " + mk, Case: report, Model: res, Index: idx})
 		}
 		return
 	}
@@ -690,7 +718,7 @@ func c19Check(ctx *Ctx, idx int, cs c19Case) {
 		model := hx.Canon(c19CanonModel(ms, entries, view.Files))
 		if impl != model {
 			rep.Fail(hx.Failure{Kind: "model-mismatch", Detail: fmt.Sprintf("step %d: downstream calls of MultiOpQueryer.Query differ from Model.Upload.sendStep", s),
-				Case: cs, Impl: clip(impl, 900), Model: clip(model, 900), Index: idx})
+				Case: report, Impl: clip(impl, 900), Model: clip(model, 900), Index: idx})
 			return
 		}
 	}
@@ -881,6 +909,11 @@ func c19Corpus() []c19Case {
 			Steps: [][]string{{"file"}, {"note", "meta"}}},
 		{Label: "corpus/empty-file", Safe: true, Ops: `{"query":"mutation R0 { inc }","variables":{"file":null}}`, Map: `{"0":["variables.file"]}`,
 			Files: []mpFile{{Key: "0", Filename: "empty.bin", Data: []byte{}}}, Steps: [][]string{nil}},
+		// larger than net/http's in-memory limit for multipart forms (32 MiB): the upload is spilled to a temporary file
+		{Label: "corpus/large-file-spilled-to-disk", Safe: true, Big: 32<<20 + 4096, Ops: `{"query":"mutation R0($file: Upload){ upload(file: $file) }","variables":{"file":null}}`, Map: `{"0":["variables.file"]}`,
+			Files: []mpFile{{Key: "0", Filename: "large.bin"}}, Steps: [][]string{nil}},
+		{Label: "corpus/one-mebibyte", Safe: true, Big: 1 << 20, Ops: `{"query":"mutation R0($file: Upload){ upload(file: $file) }","variables":{"file":null}}`, Map: `{"0":["variables.file"]}`,
+			Files: []mpFile{{Key: "0", Filename: "mib.bin"}}, Steps: [][]string{nil}},
 		// pinned witnesses of the two open findings
 		{Label: "corpus/shared-file", Ops: `{"query":"mutation R0 { inc }","variables":{"a":null,"b":null}}`, Map: `{"0":["variables.a","variables.b"]}`, Files: f("0"), Steps: [][]string{nil}},
 		{Label: "corpus/shared-file-two-requests", Ops: `[{"query":"mutation R0 { inc }","variables":{"a":null}},{"query":"mutation R1 { inc }","variables":{"a":null}}]`, Map: `{"0":["0.variables.a","1.variables.a"]}`, Files: f("0"), Steps: [][]string{nil}},
@@ -894,12 +927,90 @@ func c19Corpus() []c19Case {
 	}
 }
 
+// c19BarrierRT holds every downstream call until n calls have arrived (or a short wait elapsed) and
+// only then lets the inner transport READ the body: uploads of concurrent client requests are in
+// flight at the same time, as they are in the gateway (batch entries and plan steps run in parallel).
+type c19BarrierRT struct {
+	inner   *c19RT
+	arrived *int32
+	n       int32
+}
+
+func (b c19BarrierRT) RoundTrip(r *http.Request) (*http.Response, error) {
+	atomic.AddInt32(b.arrived, 1)
+	for k := 0; k < 400 && atomic.LoadInt32(b.arrived) < b.n; k++ {
+		time.Sleep(500 * time.Microsecond)
+	}
+	return b.inner.RoundTrip(r)
+}
+
+// c19Concurrent: n independent single-file uploads sent downstream concurrently; each is judged
+// alone with the same oracle and model comparison as a sequential case.
+func c19Concurrent(ctx *Ctx, idx int, r *hx.Rand, n int) {
+	cases := make([]c19Case, n)
+	obs := make([]c19Obs, n)
+	hcs := make([]httpCase, n)
+	reqs := make([]*requests.ParseRequestResponse, n)
+	for i := range cases {
+		data := make([]byte, 200+r.Intn(3000))
+		for k := range data {
+			data[k] = byte(r.Intn(256))
+		}
+		cases[i] = c19Case{Label: fmt.Sprintf("concurrent/%d-of-%d", i, n), Safe: true,
+			Ops:   fmt.Sprintf(`{"query":"mutation R%d($file: Upload){ upload(file: $file) }","variables":{"file":null,"n":%d}}`, i, i),
+			Map:   `{"0":["variables.file"]}`,
+			Files: []mpFile{{Key: "0", Filename: fmt.Sprintf("f%d.bin", i), Data: data}}, Steps: [][]string{nil}}
+		hcs[i] = mpLayout{Ops: &cases[i].Ops, Map: &cases[i].Map, Files: cases[i].Files}.build(cases[i].Label)
+		res, err := requests.Parse(hcs[i].request())
+		if err != nil {
+			ctx.Rep.Fail(hx.Failure{Kind: "harness-error", Detail: "concurrent stream: " + err.Error(), Case: cases[i], Index: idx})
+			return
+		}
+		reqs[i] = res
+		obs[i].Parse = parseObs{Kind: "ok", Batch: res.IsBatchMode}
+	}
+	var arrived int32
+	var wg sync.WaitGroup
+	for i := range cases {
+		wg.Add(1)
+		go func(i int) {
+			defer wg.Done()
+			rt := &c19RT{}
+			q := queryer.NewMultiOpQueryer("http://svc/", 1).WithHTTPClient(&http.Client{Transport: c19BarrierRT{rt, &arrived, int32(n)}})
+			inputs := make([]*requests.Request, len(reqs[i].Requests))
+			for k, rq := range reqs[i].Requests {
+				inputs[k] = stepRequest(rq, nil)
+			}
+			func() {
+				defer func() {
+					if p := recover(); p != nil {
+						obs[i].Error = "Query panicked: " + fmt.Sprint(p)
+					}
+				}()
+				if _, err := q.Query(inputs); err != nil {
+					obs[i].Error = "Query failed: " + err.Error()
+				}
+			}()
+			obs[i].Steps = append(obs[i].Steps, rt.calls)
+		}(i)
+	}
+	wg.Wait()
+	ctx.Rep.Count(fmt.Sprintf("concurrent uploads: %d at once", n))
+	for i := range cases {
+		c19Judge(ctx, idx+i, cases[i], cases[i], obs[i], hcs[i])
+	}
+}
+
 func runC19(ctx *Ctx) error {
 	ctx.Rep.Rule = c19Rule
 	idx := 0
 	for _, cs := range c19Corpus() {
 		c19Check(ctx, idx, cs)
 		idx++
+	}
+	for k, rounds := 0, 6*ctx.Budget; k < rounds; k++ {
+		r := ctx.Rand.Fork()
+		c19Concurrent(ctx, 1000000+k*100, r, []int{2, 8, 32, 64}[k%4])
 	}
 	safe, wild := 9000*ctx.Budget, 4000*ctx.Budget
 	for k := 0; k < safe; k++ {
